@@ -125,11 +125,159 @@ func (e *boolEval) val(v ssa.Value, fr *boolFrame) (bool, bool) {
 			}
 			return e.fn(callee, env2)
 		}
+		// slices.Contains(table, x) over a package-level table of constants that is never modified:
+		// x == table[0] || x == table[1] || ...
+		if strings.HasPrefix(calleeName(x), "slices.Contains[") && len(x.Call.Args) == 2 {
+			if ld, ok := x.Call.Args[0].(*ssa.UnOp); ok && ld.Op == token.MUL {
+				if g, ok := ld.X.(*ssa.Global); ok {
+					if elems, ok := constTableOf(g); ok {
+						subj := symRender(x.Call.Args[1], fr.env, 0)
+						res, okAll := false, true
+						for _, el := range elems {
+							b, ok := e.atom(atomKey(subj, symRender(el, fr.env, 0)))
+							okAll = okAll && ok
+							res = res || b
+						}
+						return res, okAll
+					}
+				}
+			}
+		}
 		if isBoolType(x.Type()) {
 			return e.atom(symRender(x, fr.env, 0))
 		}
 	}
 	return e.atom(symRender(v, fr.env, 0))
+}
+
+// constTableOf: g is an unexported package-level slice initialised with a literal of constants and only ever
+// read (loaded and passed on, indexed for reading, ranged over, measured) by the functions of its package.
+func constTableOf(g *ssa.Global) ([]*ssa.Const, bool) {
+	if g.Object() == nil || g.Object().Exported() || g.Pkg == nil {
+		return nil, false
+	}
+	if _, isSlice := derefType(g.Type()).Underlying().(*types.Slice); !isSlice {
+		return nil, false
+	}
+	init := g.Pkg.Func("init")
+	if init == nil {
+		return nil, false
+	}
+	var base ssa.Value
+	nInit := 0
+	eachInstr(init, func(in ssa.Instruction) {
+		if st, ok := in.(*ssa.Store); ok && st.Addr == ssa.Value(g) {
+			nInit++
+			if sl, ok := st.Val.(*ssa.Slice); ok && sl.Low == nil && sl.High == nil {
+				base = sl.X
+			}
+		}
+	})
+	if nInit != 1 || base == nil {
+		return nil, false
+	}
+	elems := map[int64]*ssa.Const{}
+	okElems := true
+	for _, ref := range referrers(base) {
+		ia, ok := ref.(*ssa.IndexAddr)
+		if !ok {
+			continue
+		}
+		idx, okI := constInt(ia.Index)
+		for _, r2 := range referrers(ia) {
+			st, ok := r2.(*ssa.Store)
+			if !ok || st.Addr != ssa.Value(ia) {
+				okElems = false
+				continue
+			}
+			k, isK := st.Val.(*ssa.Const)
+			if !okI || !isK {
+				okElems = false
+				continue
+			}
+			elems[idx] = k
+		}
+	}
+	if !okElems || len(elems) == 0 {
+		return nil, false
+	}
+	var out []*ssa.Const
+	for i := int64(0); i < int64(len(elems)); i++ {
+		k, ok := elems[i]
+		if !ok {
+			return nil, false
+		}
+		out = append(out, k)
+	}
+	// never written after initialisation
+	readOnly := true
+	var fns []*ssa.Function
+	for _, m := range g.Pkg.Members {
+		switch x := m.(type) {
+		case *ssa.Function:
+			fns = append(fns, WithAnon(x)...)
+		case *ssa.Type:
+			for _, t := range []types.Type{x.Type(), types.NewPointer(x.Type())} {
+				ms := g.Pkg.Prog.MethodSets.MethodSet(t)
+				for i := 0; i < ms.Len(); i++ {
+					if f := g.Pkg.Prog.MethodValue(ms.At(i)); f != nil && f.Pkg == g.Pkg {
+						fns = append(fns, WithAnon(f)...)
+					}
+				}
+			}
+		}
+	}
+	for _, f := range fns {
+		eachInstr(f, func(in ssa.Instruction) {
+			switch x := in.(type) {
+			case *ssa.Store:
+				if x.Addr == ssa.Value(g) && f != init {
+					readOnly = false
+				}
+			case *ssa.UnOp:
+				if x.X != ssa.Value(g) || x.Op != token.MUL {
+					return
+				}
+				for _, ref := range referrers(x) {
+					switch y := ref.(type) {
+					case *ssa.IndexAddr:
+						for _, r2 := range referrers(y) {
+							if _, isLoad := r2.(*ssa.UnOp); !isLoad {
+								if _, isD := r2.(*ssa.DebugRef); !isD {
+									readOnly = false
+								}
+							}
+						}
+					case *ssa.Call:
+						if !strings.HasPrefix(calleeName(y), "slices.Contains[") && !isCall(y, "builtin len") {
+							readOnly = false
+						}
+					case *ssa.Range, *ssa.DebugRef:
+					default:
+						readOnly = false
+					}
+				}
+			default:
+				// the address of the variable itself must not escape
+				if v, ok := in.(ssa.Value); ok {
+					_ = v
+				}
+				for _, op := range in.Operands(nil) {
+					if *op == ssa.Value(g) {
+						if _, isSt := in.(*ssa.Store); !isSt {
+							if _, isU := in.(*ssa.UnOp); !isU {
+								readOnly = false
+							}
+						}
+					}
+				}
+			}
+		})
+	}
+	if !readOnly {
+		return nil, false
+	}
+	return out, true
 }
 
 func (e *boolEval) atom(key string) (bool, bool) {
